@@ -271,19 +271,20 @@ def exec_history(job):
             elif a == "EditMembers":
                 # the members of the first named group are edited in place (append / delete / re-point one member): no line
                 # of the ACL changes, its meaning does
-                done = False
+                # (a group is one thing: every address of the list that names it gets the same edit)
+                target = None
                 for x in leaves_of(acl):
-                    if type(x).__name__ != "Ace" or done:
+                    if type(x).__name__ != "Ace":
                         continue
                     for ad in (x.srcaddr, x.dstaddr):
-                        if ad.type == "addrgroup" and not done:
+                        if ad.type == "addrgroup" and (target is None or ad.addrgroup == target):
+                            target = ad.addrgroup
                             if op["how"] == "append" or not ad.items:
                                 ad.items.append(Address(op["text"], platform=acl.platform, version=job["ver"]))
                             elif op["how"] == "del":
                                 del ad.items[op["idx"] % len(ad.items)]
                             else:
                                 ad.items[op["idx"] % len(ad.items)].line = op["text"]
-                            done = True
             elif a == "TcamCount":
                 e["ret_int"] = int(acl.tcam_count())
             elif a == "DeleteNote":
